@@ -8,7 +8,9 @@ typedef struct S_ZTSN3ipr4impl6StringE istring_t;
 typedef struct S_ZTSN3ipr6StringE String_t;
 typedef struct S_ZTSN3ipr4impl12_GLOBAL__N_114std_identifierE word_t;
 typedef struct S_ZTSSt12forward_listIN3ipr4impl6StringESaIS2_EE flist_t;
+#ifdef IPR_HAVE_fl_begin
 typedef struct S_ZTSSt18_Fwd_list_iteratorIN3ipr4impl6StringEE fit_t;
+#endif
 typedef struct S_ZTSN3ipr4util6stringE ustring_t;
 #define WORDS g__ZN3ipr4impl12_GLOBAL__N_111known_wordsE
 #define NWORD 56
@@ -32,6 +34,7 @@ static istring_t* cell[NB + 1]; static int ncell;     /* bucket contents, front 
 static flist_t the_bucket; static unsigned long the_hash; static int hash_calls;
 unsigned long @{hash}(void* self, sv_t* w) { hash_calls++; return the_hash; }
 flist_t* @{map_index}(void* self, unsigned long* h) { __CPROVER_assert(*h == the_hash, "bucket is looked up by the word's hash"); return &the_bucket; }
+#ifdef IPR_HAVE_fl_begin      /* the iterator-based scan (as the current source does it) */
 static fit_t mk_it(int i) { fit_t it; __builtin_memset(&it, 0, sizeof it); *(long*)&it = i; return it; }
 fit_t @{fl_begin}(void* self) { __CPROVER_assert(self == (void*)&the_bucket, "iteration over the word's bucket"); return mk_it(0); }
 fit_t @{fl_end}(void* self) { return mk_it(ncell); }
@@ -43,6 +46,8 @@ fit_t @{find_if}(fit_t first, fit_t last, struct Slambda__ZN3ipr4util11string_po
   for (int k = 0; k < NB + 1; k++) { if (i == e) break; if (@{eq_call}(&pred, cell[i])) break; i++; }
   return mk_it((int)i);
 }
+#endif
+_Bool @{fl_empty}(void* self) { __CPROVER_assert(self == (void*)&the_bucket, "emptiness is asked of the word's bucket"); return ncell == 0; }
 /* emplace_front / front, as lowered by cxx2c (storage from __ipr_alloc, then linked) */
 void __ipr_fl_push(void* list, void* node) { __CPROVER_assert(list == (void*)&the_bucket, "new word is entered into the word's bucket");
   for (int k = NB; k > 0; k--) cell[k] = cell[k - 1]; cell[0] = node; ncell++; }
